@@ -10,6 +10,7 @@
 #include <thread>
 
 #include "log.h"
+#include "verif_hooks.h"
 
 #include "glog/logging.h"
 
@@ -23,6 +24,7 @@ namespace yakushima {
 }
 
 [[maybe_unused]] static void sleepMs(size_t ms) {
+    if (YK_YIELD()) { return; }
     std::this_thread::sleep_for(std::chrono::milliseconds(ms));
 }
 
